@@ -33,7 +33,7 @@ def REQUIRED(tier):
 
 def _required(tier):
     return ["files_cleaned", "hook:apply_mask", "hook:apply_method", "hook:apply_funcn", "mask_union_checks", "vectors:mad", "vectors:iqrm", "vector:all_equal", "vector:planted_outlier",
-            "file_samples_compared", "regime:multi_block", "roundtrip_checks", "freq:empty_list", "freq:outside_band", "freq:overlapping", "freq:limit_on_centre", "algebra_histories", "regime:subrange_cleaned", "regime:negative_float_samples", "regime:float_mask_value_outside_0_255", "custom_function_input_checks", "regime:cleaning_after_a_refused_call", "regime:integer_valued_custom_mask", "band:ascending", "second_cleaning_on_same_reader", "roundtrip:saved_over_an_existing_mask_file", "vector:mostly_tied", "algebra:duplicate_taken_mid_history"]
+            "file_samples_compared", "regime:multi_block", "roundtrip_checks", "freq:empty_list", "freq:outside_band", "freq:overlapping", "freq:limit_on_centre", "algebra_histories", "regime:subrange_cleaned", "regime:negative_float_samples", "regime:float_mask_value_outside_0_255", "custom_function_input_checks", "regime:cleaning_after_a_refused_call", "regime:integer_valued_custom_mask", "band:ascending", "second_cleaning_on_same_reader", "roundtrip:saved_over_an_existing_mask_file", "vector:mostly_tied", "algebra:duplicate_taken_mid_history", "vector:tiny_scale", "vector:fewer_than_12_channels"]
 
 
 def cases(tier, seed):
@@ -379,6 +379,11 @@ def _vectors(case, ctx):
         cls = str(rng.choice(["normal", "all_equal", "planted_outlier", "ties", "lognormal"]))
         if j % 5 == 4:
             cls = "mostly_tied"
+        if j % 10 == 3:
+            n = int(rng.integers(4, 12))         # narrow bands: fewer channels than twice the IQRM lag radius
+            ctx.count("vector:fewer_than_12_channels")
+        if j % 10 == 7:
+            cls = "tiny_scale"
         if cls == "mostly_tied":
             # more than half of the channels are dead (their statistic is exactly the same number); the live ones scatter on both sides of it,
             # with one violent channel on one side and a moderate one on the other
@@ -388,6 +393,9 @@ def _vectors(case, ctx):
             sgn = float(rng.choice([-1, 1]))
             x[live[0]] += sgn * float(rng.choice([500.0, 90.0, 2000.0]))
             x[live[1]] -= sgn * float(rng.uniform(2.0, 8.0))
+        elif cls == "tiny_scale":
+            # statistics of calibrated data (sample rms ~1e-4): robust scales of a few 1e-8, far above the 1e-8 "zero scale" guard, outlier at 1e-5
+            x = rng.normal(size=n) * 4.0e-8 * float(rng.uniform(0.8, 2.0))
         elif cls == "all_equal":
             x = np.full(n, float(rng.normal() * 10))
         elif cls == "ties":
@@ -400,6 +408,9 @@ def _vectors(case, ctx):
         if cls == "planted_outlier":
             planted = int(rng.integers(0, n))
             x[planted] += float(rng.choice([-1, 1])) * 1000.0
+        if cls == "tiny_scale":
+            planted = int(rng.integers(0, n))
+            x[planted] += float(rng.choice([-1, 1])) * 1.0e-5
         x = x.astype(np.float32)
         thr = float(rng.choice([3.0, 2.0, 5.0, float(rng.uniform(0.5, 8))]))
         for method, fn in (("mad", rfi.double_mad_mask), ("iqrm", rfi.iqrm_mask)):
@@ -418,8 +429,8 @@ def _vectors(case, ctx):
                 continue
             if cls == "all_equal" and got.any():
                 ctx.violation(f"all-equal-flagged:{method}", f"all-equal vector flagged channels {np.flatnonzero(got)[:5].tolist()}", one)
-            if planted is not None and not got[planted]:
-                ctx.violation(f"planted-outlier-missed:{method}", f"outlier of 1000 at {planted} not flagged (threshold {thr})", one)
+            if planted is not None and n >= 12 and not got[planted]:     # in a handful of channels one extreme value sets the scale of its own side
+                ctx.violation(f"planted-outlier-missed:{method}", f"outlier of {'1e-5 over a scatter of 4e-8' if cls == 'tiny_scale' else 1000} at {planted} not flagged (threshold {thr})", one)
             if got.any() and not got.all():
                 ctx.nontrivial_case(one)
 
